@@ -439,6 +439,6 @@ example : (tryFrom (encodeAP [0x20,0x00,0x05,0x18] 0xabcdef)).isOk = true := by 
     name, whatever inputs the harness happens to generate. -/
 theorem hidden_state_reviewed :
     Gen.HiddenState.sitesIn ["decode/crc.rs", "decode/mod.rs"] =
-      [("decode/mod.rs", "static CONFIG: OnceCell<SerializeConfig> = OnceCell::new();")] := by decide
+      [("decode/mod.rs", "static CONFIG:OnceCell<SerializeConfig>=OnceCell::new();")] := by decide
 
 end Rs1090.Props.C02
